@@ -1204,6 +1204,8 @@ class Step:
                 M.store_at(parent, key, vnode)
             if self.pre_layout is not None:
                 self.pre_layout.pop(o.k, None)
+                if "*" in path:
+                    self.pre_layout = None  # (the part lives in another object, reached through a reference)
             self.res.probe("nested_assignment_same_size_other_split")
         else:
             M.store_at(parent, key, M.assign_into(w.schema, t, node, vnode))
